@@ -12,6 +12,7 @@ import (
 	"github.com/nulab/autog"
 	"github.com/nulab/autog/graph"
 	"github.com/nulab/autog/internal/phase1"
+	"github.com/nulab/autog/internal/phase3"
 )
 
 // ---------------------------------------------------------------------------------------------------------
@@ -69,6 +70,8 @@ type Case struct {
 	Fixed      Sz                    `json:"fixed,omitempty"`
 	Sizes      map[string]Sz         `json:"sizes,omitempty"`
 	OptStyle   int                   `json:"optstyle,omitempty"` // how the SAME configuration is spelled as an option list: see Options
+	SizeXY     int                   `json:"size_xy,omitempty"`  // what the X/Y fields of the size map's graph.Size values hold: 0 zero, 1/2 junk (see SizeMap)
+	Ord        int                   `json:"ord,omitempty"`      // 0 = OrderingWMedian (default), 1 = OrderingNoop (public option; only C16 draws it)
 	lastDecoy  map[string]graph.Size // the decoy size map handed out by the last Options call (style 3), for C07
 	NS         *float64              `json:"ns,omitempty"` // nil = option not passed (default 60)
 	LS         *float64              `json:"ls,omitempty"` // nil = option not passed (default 150)
@@ -153,6 +156,25 @@ func (c *Case) SizeMap() map[string]graph.Size {
 	for k, v := range c.Sizes {
 		m[k] = graph.Size{W: v.W, H: v.H}
 	}
+	// graph.Size also has X and Y. WithNodeSize documents that it sets a SIZE: whatever a caller leaves in X/Y (sizes
+	// copied from the nodes of an earlier layout, or from its own bounding boxes) must not matter (seeded/r5-m03 let it
+	// through to the top layer's y). The junk is a deterministic function of the sorted key order.
+	if c.SizeXY != 0 {
+		keys := make([]string, 0, len(m))
+		for k := range m {
+			keys = append(keys, k)
+		}
+		sort.Strings(keys)
+		for i, k := range keys {
+			v := m[k]
+			if c.SizeXY == 1 {
+				v.X, v.Y = float64(100*i), float64(150*(i%3)+75) // as if copied from an earlier layout
+			} else {
+				v.X, v.Y = -33.3*float64(i+1), 1e4+0.5*float64(i)
+			}
+			m[k] = v
+		}
+	}
 	return m
 }
 
@@ -193,7 +215,9 @@ func (c *Case) explicitDefaults() []autog.Option {
 	if c.Lay == LayNS {
 		o = append(o, autog.WithLayering(autog.LayeringNetworkSimplex))
 	}
-	o = append(o, autog.WithOrdering(autog.OrderingWMedian))
+	if c.Ord == 0 {
+		o = append(o, autog.WithOrdering(autog.OrderingWMedian))
+	}
 	if !c.Virt {
 		o = append(o, autog.WithOutputVirtualNodes(false))
 	}
@@ -204,7 +228,7 @@ func (c *Case) explicitDefaults() []autog.Option {
 func (c *Case) decoys() []autog.Option {
 	o := []autog.Option{
 		autog.WithCycleBreaking([]phase1.Alg{autog.CycleBreakingDepthFirst, autog.CycleBreakingDepthFirst, autog.CycleBreakingGreedy}[c.CB]),
-		autog.WithOrdering(autog.OrderingNoop),
+		autog.WithOrdering([]phase3.Alg{autog.OrderingNoop, autog.OrderingWMedian}[c.Ord]),
 		autog.WithPositioning(autog.PositioningNoop),
 		autog.WithEdgeRouting(autog.EdgeRoutingNoop),
 		autog.WithOutputVirtualNodes(!c.Virt),
@@ -246,6 +270,9 @@ func (c *Case) canonicalOptions(sizes map[string]graph.Size) []autog.Option {
 	case LayNS:
 	case LayLP:
 		o = append(o, autog.WithLayering(autog.LayeringLongestPath))
+	}
+	if c.Ord == 1 {
+		o = append(o, autog.WithOrdering(autog.OrderingNoop))
 	}
 	switch c.Pos {
 	case PosSink:
